@@ -14,11 +14,12 @@
    * no container location is held by two slots, in every reachable state,
      hence mutating the value obtained from one object never changes what any
      other (object, feature) reads.
-   Multi-valued attributes (fresh empty collection per instance) and the
-   bytes of save() before/after reads are decided by the correspondence and
-   the oracle of harness/props/c15.py. *)
+   Multi-valued attributes: theorems at the end of this file over the KERNEL
+   model (Model/Kernel.v, Proofs/C15Many.v), tied to /repo by the kernel
+   correspondence on values AND eIsSet flags (harness/props/c15.py, part M).
+   The bytes of save() before/after reads are decided by the oracle. *)
 From Coq Require Import ZArith List Bool Arith.
-From PyecoreV Require Import Lib.PyBase Model.Defaults Proofs.C15Proofs.
+From PyecoreV Require Import Lib.PyBase Model.Defaults Proofs.C15Proofs Model.Kernel Proofs.C15Many.
 Import ListNotations.
 
 Theorem C15_never_set_reads_default :
@@ -59,3 +60,52 @@ Example C15_witness :
   let s := fold_left (dstep decl) [DRead 0 0; DRead 1 0; DMutate 0 0 7%Z] dinit in
   dview_at decl s 0 0 = WList [7%Z] /\ dview_at decl s 1 0 = WList [] /\ dset s 0 0 = false.
 Proof. vm_compute. repeat split; reflexivity. Qed.
+
+
+(* ---------------- multi-valued attributes, on the kernel model ---------------- *)
+Theorem C15_many_valued_never_written_reads_empty :
+  forall m x f, f_many (fd m f) = true ->
+  vals (init_state m) (x, f) = [] /\ isset (init_state m) (x, f) = false.
+Proof. exact many_never_written. Qed.
+Print Assumptions C15_many_valued_never_written_reads_empty.
+
+Theorem C15_many_valued_read_is_free :
+  forall m s x f, next m s (ORead x f) = s /\ fst (step m s (ORead x f)) = (None, s).
+Proof. exact read_is_free. Qed.
+Print Assumptions C15_many_valued_read_is_free.
+
+Theorem C15_many_valued_delete_restores_empty :
+  forall m f, f_isref (fd m f) = false -> f_many (fd m f) = true ->
+  forall s x,
+  fst (fst (step m s (ODel x f))) = None /\
+  vals (next m s (ODel x f)) (x, f) = [] /\
+  (forall k, k <> (x, f) -> vals (next m s (ODel x f)) k = vals s k).
+Proof. exact del_restores_empty. Qed.
+Print Assumptions C15_many_valued_delete_restores_empty.
+
+(* every call on x.f leaves every other slot (other objects, other features) as it was *)
+Theorem C15_many_valued_state_is_private :
+  forall m f, f_isref (fd m f) = false -> f_many (fd m f) = true ->
+  forall s x k, k <> (x, f) ->
+  (forall v, vals (next m s (OAppend x f v)) k = vals s k) /\
+  (forall i v, vals (next m s (OInsert x f i v)) k = vals s k) /\
+  (forall v, vals (next m s (ORemove x f v)) k = vals s k) /\
+  (forall vs, vals (next m s (OExtend x f vs)) k = vals s k) /\
+  (forall vs, vals (next m s (OAssign x f vs)) k = vals s k) /\
+  vals (next m s (OClear x f)) k = vals s k /\
+  vals (next m s (ODel x f)) k = vals s k.
+Proof. exact many_attr_calls_private. Qed.
+Print Assumptions C15_many_valued_state_is_private.
+
+(* writing nothing is a write: the feature is set afterwards, and still empty / unchanged *)
+Theorem C15_many_valued_empty_writes :
+  forall m f, f_isref (fd m f) = false -> f_many (fd m f) = true ->
+  forall s x,
+  (vals (next m s (OExtend x f [])) (x, f) = vals s (x, f) /\ isset (next m s (OExtend x f [])) (x, f) = true) /\
+  (vals (next m s (OAssign x f [])) (x, f) = [] /\ isset (next m s (OAssign x f [])) (x, f) = true).
+Proof.
+  intros m f Ha Hm s x. split.
+  - destruct (empty_extend_marks_set m f s x) as [H1 [H2 _]]. split; assumption.
+  - destruct (empty_assign_marks_set m f Ha Hm s x) as [H1 [H2 _]]. split; assumption.
+Qed.
+Print Assumptions C15_many_valued_empty_writes.
